@@ -180,8 +180,7 @@ def transformer_rules(check, P):
             check.ok("R5", "inverse = inv(stored matrix)")
         else:
             check.violation("R5", "chain:inverse", f"after chaining, _inverse is {inv!r}, expected {want_inv}", d)
-    if accepted < 1:
-        raise AnalysisError("C04.R4: chain_transform has no accepted abstract path")
+    check.floor(not (accepted < 1), "C04.R4: chain_transform has no accepted abstract path")
     # --- set_pivot(p)
     p = NT("Point", AXES, tuple(Num(Poly.sym(f"arg.p.{a}")) for a in AXES))
     f = P.func("CoordinateTransformer.set_pivot")
@@ -208,8 +207,7 @@ def transformer_rules(check, P):
                 t = I.tag(r)
                 I.heap = saved_heap
                 check.violation("R4", f"pivot:{field}", f"_set_pivot stores {field} = {t}; expected a 4x4 identity whose last column is {'+' if sign > 0 else '-'}p", [decisions_text(path)])
-    if accepted < 1:
-        raise AnalysisError("C04.R4: set_pivot has no accepted abstract path")
+    check.floor(not (accepted < 1), "C04.R4: set_pivot has no accepted abstract path")
     # --- apply / reverse bodies
     for meth, field in (("apply", "_matrix"), ("reverse", "_inverse")):
         I.intrinsics.pop(f"Transform.{meth}", None)
@@ -253,8 +251,7 @@ def transformer_rules(check, P):
                 t = I.tag(vec)
                 I.heap = saved_heap
                 check.violation("R4", f"{meth}:product", f"{meth} computes {t}; expected {field[1:]} @ (x, y, z, 1) with unknown coordinates as 0", [decisions_text(path)])
-        if seen < 1:
-            raise AnalysisError(f"C04.R4: {meth} analysed on no path")
+        check.floor(seen >= 1, f"C04.R4: {meth} analysed on no path")
     return n
 
 
@@ -295,8 +292,7 @@ def run(check, repo, tier):
         if len(check.samples) < 8 and r["command"] in AWARE + BYPASS:
             oks = [it[2] for it in r["items"] if it[0] == "ok"]
             check.sample({"command": r["command"], "context": r["ctx"], "abstract_paths": r["paths"], "example": oks[:2]})
-    if n1 < 300:
-        raise AnalysisError(f"C04.R1: only {n1} word/end-to-end obligations decided (floor 300)")
+    check.floor(not (n1 < 300), f"C04.R1: only {n1} word/end-to-end obligations decided (floor 300)")
     n4 = transformer_rules(check, cr.program)
     check.analysed = dict(cr.stats, transformer_paths=n4)
     check.coverage["exhaustive"] = True
